@@ -354,12 +354,14 @@ def check_c12(prog, rep, tier, cfg):
     if rep.check(len(lcs) == 1 and tl is not None, R, "anchor:lines_custom/text_literal", "lines_custom closure / lexer::text_literal not found"):
         a = sorted({v for k, v in consts_in(lcs[0], ("char",))})
         bset = set()
-        for bb in sorted(tl.reachable()):
-            t = tl.blocks[bb]["term"]
-            if t["k"] == "switch":
-                vals = [v for v, _ in t["targets"]]
-                if set(vals) == {10, 13}:
-                    bset = set(vals)
+        # (the test may sit in a nested helper of text_literal, e.g. `multiline_contents_start`; the single-line segment scanners are not it)
+        for tlx in [tl] + [x for x in prog.bodies.values() if x.npath.startswith(tl.npath + "::") and "::consume_" not in x.npath]:
+            for bb in sorted(tlx.reachable()):
+                t = tlx.blocks[bb]["term"]
+                if t["k"] == "switch":
+                    vals = [v for v, _ in t["targets"]]
+                    if set(vals) == {10, 13}:
+                        bset = set(vals)
         rep.check(a == [10, 13] and bset == {10, 13}, R, "AGREE:interior-line-terminators", "lines_custom splits on %s but the lexer accepts %s after the opening quotes" % (a, sorted(bset)),
                   instance={"lines_custom": a, "lexer": sorted(bset)})
         # the splitter closure is a two-state automaton over {CR, LF, other}: run its decision table on all six (state, class) inputs
